@@ -1,6 +1,6 @@
 from xdsl.context import Context
 from xdsl.dialects import builtin, linalg
-from xdsl.ir import Block
+from xdsl.ir import Block, SSAValue
 from xdsl.parser import IRDLOperation
 from xdsl.passes import ModulePass
 from xdsl.pattern_rewriter import (
@@ -10,6 +10,7 @@ from xdsl.pattern_rewriter import (
     op_type_rewrite_pattern,
 )
 from xdsl.rewriter import InsertPoint
+from xdsl.traits import Commutative
 
 from snaxc.dialects.kernel import Kernel, Parsable
 
@@ -17,17 +18,27 @@ from snaxc.dialects.kernel import Kernel, Parsable
 def check_kernel_equivalence(block_a: Block, block_b: Block) -> bool:
     """
     Verify if two blocks are equivalent to each other,
-    that for the same inputs they include the same
-    operations.
+    that for the same inputs they compute the same values
+    with the same operations, wired in the same way.
     """
-    if len(block_a.ops) != len(block_b.ops):
+    if len(block_a.ops) != len(block_b.ops) or len(block_a.args) != len(block_b.args):
         return False
 
-    # warning: this is a bit of a naive way of checking equality between
-    # kernels, but should cover all of our purposes for quite some time
+    # values of block_a -> corresponding values of block_b
+    mapping: dict[SSAValue, SSAValue] = dict(zip(block_a.args, block_b.args))
+
     for op_a, op_b in zip(block_a.ops, block_b.ops, strict=True):
         if type(op_a) is not type(op_b):
             return False
+        if op_a.result_types != op_b.result_types:
+            return False
+        expected = [mapping.get(operand) for operand in op_a.operands]
+        actual = list(op_b.operands)
+        if expected != actual:
+            # operands of commutative operations may be swapped
+            if not (op_a.has_trait(Commutative) and expected[::-1] == actual):
+                return False
+        mapping.update(zip(op_a.results, op_b.results))
 
     return True
 
